@@ -111,6 +111,18 @@ def observe(region, lons, lats, numpy):
         else:
             differs[inside] |= numpy.asarray(r2, dtype=numpy.int64) != idx[inside]
     idx[differs] = -3
+    # the answer for a point does not depend on which other points are asked about in the same call: a sample of the points
+    # (all of them for small batches) is asked about one at a time and, for a few, as a catalog holding that single event
+    step_ = max(1, n // 150)
+    for i in range(0, n, step_):
+        m1 = guarded(region.get_masked, lons[i:i + 1], lats[i:i + 1])
+        if isinstance(m1, Raised) or bool(numpy.asarray(m1).reshape(-1)[0]) != bool(masked[i]):
+            differs[i] = True
+        elif i % (7 * step_) == 0:
+            one = guarded(lambda: CSEPCatalog(data=[('s', 0, float(lats[i]), float(lons[i]), 1.0, 5.0)]).filter_spatial(region, in_place=False).event_count)
+            if isinstance(one, Raised) or int(one) != (0 if masked[i] else 1):
+                differs[i] = True
+    idx[differs] = -3
     # points the mask calls outside: the index lookup must raise ValueError for each (sampled individually)
     outside = numpy.where(masked)[0]
     for i in outside[:: max(1, outside.size // 40)]:
